@@ -3,7 +3,7 @@
    pool operations of theories/Own.v (construction, by-value iteration incl. skipping,
    cloning and abandoning early, map/zip/fold, append/prepend/pop/split/concat/remove/
    swap_remove, flatten/unflatten, conversions to and from native arrays, tuples, Vec,
-   Box), chained through the pool; operations that do not type-check (wrong kind of
+   Box, collecting from sources of the right and of the wrong length), chained through the pool; operations that do not type-check (wrong kind of
    object, lengths that do not fit) are not steps. *)
 From Coq Require Import Permutation.
 From GA Require Import Base Iter Own OwnProofs.
